@@ -428,7 +428,7 @@ def prepare(tier="quick"):
     """baselines: each operation once, alone, in a pristine forked child (the parent stays pristine)"""
     global OPS, OPS_BY_NAME
     OPS = build_ops()
-    OPS += tests_corpus_ops(1 if tier == "thorough" else 6)
+    OPS += tests_corpus_ops(1 if tier == "thorough" else 4)
     OPS_BY_NAME = dict(OPS)
     for nm, fn in OPS:
         r, w = os.pipe()
@@ -524,7 +524,7 @@ class Threads:
         ch = self.ch
         sim = self.sim
         names = [n for n, _ in OPS]
-        n_hist = ch.geometric("hist.len", 4, 20)
+        n_hist = ch.geometric("hist.len", 4, 20) + (ch.geometric("hist.more", 15, 60) if ch.flag("hist.long", 0.1) else 0)
         hist = [names[ch.pick("hist.op", len(names))] for _ in range(n_hist)]
         for nm in hist:
             sim.log(f"history: {nm}")
